@@ -240,8 +240,9 @@ class RecordingSource(io.BytesIO):
     """plan: optional list of piece lengths; when given, read(n) returns at most the next planned piece (a pipe- or
     socket-like source that hands back short reads), never an empty result before the real end."""
 
-    def __init__(self, data, plan=None, fail_at=()):
+    def __init__(self, data, plan=None, fail_at=(), carrier='bytes'):
         super().__init__(data)
+        self.carrier = Carrier(carrier, 1 << 16) if carrier != 'bytes' else None
         self.reads = []
         self.plan = list(plan) if plan else None
         self.fail_at = set(fail_at)       # read-call numbers that fail once with a transient error, consuming nothing
@@ -258,16 +259,22 @@ class RecordingSource(io.BytesIO):
             n = want if n is None or n < 0 else min(n, want)
         r = super().read(n)
         self.reads.append((n, len(r)))
+        if self.carrier is not None and r:
+            # the source hands out ONE buffer object that it refills for every read (what readinto()-style sources do):
+            # whatever was handed out before now shows the new bytes
+            if len(r) > len(self.carrier.buf) and self.carrier.kind == 'memoryview':
+                self.carrier = Carrier('memoryview', len(r))
+            return self.carrier.put(r)
         return r
 
 
 def feed_wrapper(data, cuts, allowed=None, expected=None, queries=False, monitor=True, empties=(), short_reads=False,
-                 source_faults=()):
+                 source_faults=(), carrier='bytes'):
     """Drive InspectWrapper.read() with read sizes given by the cut positions; with short_reads the reader always asks
     for 64 KiB and it is the source that returns the scheduled piece sizes."""
     F = fi()
     src = RecordingSource(data, plan=[b - a for a, b in chunks_of(len(data), cuts)] if short_reads else None,
-                          fail_at=source_faults)
+                          fail_at=source_faults, carrier=carrier)
 
     def _read(w, size):
         # a reader that retries once when the source reports a transient error
@@ -286,7 +293,7 @@ def feed_wrapper(data, cuts, allowed=None, expected=None, queries=False, monitor
         for idx, (a, b) in enumerate(chunks_of(n, cuts)):
             if idx in empties:
                 w.read(0)
-            out.append(_read(w, max(b - a, 65536) if short_reads else b - a))
+            out.append(bytes(_read(w, max(b - a, 65536) if short_reads else b - a)))
             for i in w._inspectors:
                 if monitor and i not in w._errored_inspectors:
                     mons[i.NAME].check(i, b)
@@ -296,7 +303,7 @@ def feed_wrapper(data, cuts, allowed=None, expected=None, queries=False, monitor
                 _q(lambda: w.formats)
                 for i in w._inspectors:
                     verdict(i)
-        out.append(w.read(1 << 20))     # EOF read
+        out.append(bytes(w.read(1 << 20)))     # EOF read
         decisions.append(_decision(w))
     except BaseException as e:  # noqa
         exc = e
